@@ -11,6 +11,7 @@ from __future__ import annotations
 import importlib
 import json
 import os
+import re
 import select
 import shutil
 import signal
@@ -26,8 +27,10 @@ def _resolve(fn: str):
     return getattr(importlib.import_module(mod), name)
 
 
-def _child(job: dict, wfd: int, sandbox: str) -> None:
+def _child(line: str, wfd: int, sandbox: str) -> None:
+    job = {"id": None}
     try:
+        job = json.loads(line)  # (parsed HERE, not in the parent: see _run_job)
         os.makedirs(sandbox, exist_ok=True)
         os.environ["HOME"] = sandbox
         os.chdir(sandbox)
@@ -53,8 +56,21 @@ def _child(job: dict, wfd: int, sandbox: str) -> None:
         os._exit(0)
 
 
-def _run_job(job: dict, seq: int) -> dict:
-    sandbox = os.path.join(SHM, f"verif-{os.getpid()}-{seq}")
+_ID_RE = re.compile(r'"id": (\d+)')
+_TIMEOUT_RE = re.compile(r'"timeout": (\d+(?:\.\d+)?)')
+
+
+def _run_job(line: str, seq: int) -> bytes:
+    """Fork a child for one job and return its result envelope as raw JSON bytes.
+
+    The parent never parses the job nor the result: between two jobs it allocates next to nothing, so every run forks from
+    (as good as) the same heap state and what a run allocates - hence which freed blocks later objects reuse, hence anything
+    keyed by id() - is a function of the job alone, not of the jobs this worker happened to serve before."""
+    ids = _ID_RE.findall(line)
+    jid = int(ids[-1]) if ids else -1  # (the pool adds "id" last)
+    m = _TIMEOUT_RE.search(line)
+    timeout = float(m.group(1)) if m else 120.0
+    sandbox = os.path.join(SHM, f"verif-{os.getpid():07d}-{seq:07d}")
     rfd, wfd = os.pipe()
     pid = os.fork()
     if pid == 0:
@@ -64,10 +80,9 @@ def _run_job(job: dict, seq: int) -> dict:
             signal.signal(signal.SIGTERM, signal.SIG_DFL)
         except Exception:  # noqa: BLE001
             pass
-        _child(job, wfd, sandbox)
+        _child(line, wfd, sandbox)
         os._exit(0)
     os.close(wfd)
-    timeout = float(job.get("timeout", 120))
     deadline = time.monotonic() + timeout
     chunks = []
     timed_out = False
@@ -92,14 +107,11 @@ def _run_job(job: dict, seq: int) -> dict:
     _, status = os.waitpid(pid, 0)
     shutil.rmtree(sandbox, ignore_errors=True)
     if timed_out:
-        return {"id": job["id"], "status": "timeout", "timeout_s": timeout}
+        return json.dumps({"id": jid, "status": "timeout", "timeout_s": timeout}).encode()
     raw = b"".join(chunks)
-    if not raw:
-        return {"id": job["id"], "status": "died", "wait_status": status}
-    try:
-        return json.loads(raw)
-    except ValueError:
-        return {"id": job["id"], "status": "died", "wait_status": status, "raw": raw[:200].decode("latin1")}
+    if not raw or not raw.startswith(b"{") or not raw.rstrip().endswith(b"}") or b"\n" in raw.strip():
+        return json.dumps({"id": jid, "status": "died", "wait_status": status, "raw": raw[:200].decode("latin1")}).encode()
+    return raw.strip()
 
 
 def main() -> None:
@@ -111,6 +123,7 @@ def main() -> None:
     sys.path.insert(0, verif)
     sys.path.insert(0, repo)
     out = os.fdopen(os.dup(1), "w", buffering=1)
+    outb = os.fdopen(os.dup(1), "wb")
     devnull = os.open(os.devnull, os.O_WRONLY)
     os.dup2(devnull, 1)
     if os.environ.get("VERIF_WORKER_QUIET", "1") == "1":
@@ -136,13 +149,12 @@ def main() -> None:
         line = line.strip()
         if not line:
             continue
-        job = json.loads(line)
-        if job.get("fn") == "__exit__":
+        if '"fn": "__exit__"' in line:
             break
         seq += 1
-        res = _run_job(job, seq)
-        out.write(json.dumps(res) + "\n")
-        out.flush()
+        res = _run_job(line, seq)
+        outb.write(res + b"\n")
+        outb.flush()
 
 
 if __name__ == "__main__":
